@@ -1,3 +1,5 @@
+#[cfg(renoir_verif)]
+use simrt::stdshim as std;
 use std::sync::{Arc, Barrier};
 
 use lazy_init::Lazy;
